@@ -32,6 +32,7 @@ NOT_DECIDED = ["the number of returned walks is minimum", "solve() succeeds on e
 
 # ----------------------------------------------------------------------------------------------- C04.R5
 import ast as _ast
+import re
 from sa.pm import calls_in as _calls_in, is_super_call as _is_super, kwarg as _kwarg, walk_no_nested as _wnn
 from rules.formulation import conformance as _conformance
 from rules.semantic import enclosing_tests as _enclosing_tests
@@ -86,7 +87,23 @@ def repetition_caps(prog, rep, RID):
                 same_poly = repr(_tp(_ast.parse(txt, mode="eval").body)) == repr(_tp(_ast.parse(want, mode="eval").body))
             except SyntaxError:
                 pass
-        if txt == want or same_poly:
+        equivalent_form = False
+        if not (txt == want or same_poly) and cname == "kFlowDecompCycles":
+            # the same provider in another shape: a dict over the edges whose value is, case by case, the edge's own flow value or w_max
+            # (which case applies to which edge is decided by the premises rule: own flow only for non-ignored edges carrying the attribute)
+            from rules.common import expr_cases
+            from rules.bounds import _resolve
+            e_ = _resolve(g, v)
+            if isinstance(e_, _ast.DictComp) and len(e_.generators) == 1 and "self.G.edges" in norm(e_.generators[0].iter):
+                vals = [norm(x) for _, x in expr_cases(e_.value)]
+                ok_vals = [t for t in vals if t == "self.w_max" or re.fullmatch(r"[\w.\[\], ]+\[self\.flow_attr\]", t)]
+                if len(ok_vals) == len(vals) and any(t != "self.w_max" for t in vals):
+                    equivalent_form = True
+                elif any(isinstance(x, _ast.Constant) for _, x in expr_cases(e_.value)):
+                    equivalent_form = False
+                else:
+                    raise AnalysisError(f"{cname}.__init__: cannot classify the repetition cap `{txt[:100]}`")
+        if txt == want or same_poly or equivalent_form:
             rep.ok(RID, key, f"{kw} = {txt[:80]} ({why})", g.loc(sup[0]), sample={"class": cname, "cap": txt[:120]})
         else:
             rep.violation(RID, key, f"{kw} = `{txt[:100]}` is not the tabled provider ({why}): walks that must repeat an edge more often are cut off", g.loc(sup[0]))
